@@ -31,12 +31,21 @@ Definition l_schema : N := 4%N.
 Definition l_types : N := 5%N.
 Definition l_definitions : N := 6%N.
 
+(* a location attribute as written: absolute, or relative (interned text) *)
+Inductive locref := LAbs (u : url) | LRel (r : N).
+
 Record cand := mkCand {
   c_path : list qn;             (* expanded names of the ancestors, root first *)
   c_name : qn;
-  c_sloc : option url;          (* @schemaLocation, resolved against the document's URL *)
-  c_loc : option url            (* @location *)
+  c_sloc : option locref;       (* @schemaLocation, if present *)
+  c_loc : option locref         (* @location, if present *)
 }.
+
+(* urljoin: base document URL, relative reference -> URL *)
+Definition joiner := url -> N -> url.
+
+Definition resolve (j : joiner) (base : url) (l : locref) : url :=
+  match l with LAbs u => u | LRel r => j base r end.
 
 Definition qn_eqb (a b : qn) : bool := N.eqb (fst a) (fst b) && N.eqb (snd a) (snd b).
 
@@ -52,52 +61,60 @@ Definition is_xsd_ref_name (n : qn) : bool :=
 
 Definition is_wsdl_import (n : qn) : bool := N.eqb (fst n) ns_wsdl && N.eqb (snd n) l_import.
 
-(* the document an element names, if any *)
-Definition ref_of (c : cand) : option url :=
+(* the location by which an element names a document, if it does.  An import
+   without the attribute names nothing: its namespace is an identifier, not
+   an address. *)
+Definition ref_of (c : cand) : option locref :=
   if is_wsdl_import (c_name c) && path_is (c_path c) [(ns_wsdl, l_definitions)] then c_loc c
   else if is_xsd_ref_name (c_name c) && in_schema_position (c_path c) then c_sloc c
   else None.
 
-Fixpoint refs (d : list cand) : list url :=
+(* the documents named by document [d] located at [base]: every reference is
+   resolved against the URL of the document that CONTAINS it *)
+Fixpoint refs (j : joiner) (base : url) (d : list cand) : list url :=
   match d with
   | [] => []
-  | c :: r => match ref_of c with Some u => u :: refs r | None => refs r end
+  | c :: r => match ref_of c with
+              | Some l => resolve j base l :: refs j base r
+              | None => refs j base r
+              end
   end.
 
 (* the documents that can be retrieved (through store / transport) and parsed;
    None: not retrievable or ill-formed -- it names nothing *)
 Definition world := url -> option (list cand).
 
-Definition refs_at (w : world) (u : url) : list url :=
-  match w u with Some d => refs d | None => [] end.
+Definition refs_at (j : joiner) (w : world) (u : url) : list url :=
+  match w u with Some d => refs j u d | None => [] end.
 
 Fixpoint umem (u : url) (l : list url) : bool :=
   match l with [] => false | k :: r => N.eqb k u || umem u r end.
 
 (* the loader: fetch what is named, once each; [todo] starts as the URL the
    caller named.  Result: the URLs asked of the store / transport. *)
-Fixpoint load (fuel : nat) (w : world) (todo seen : list url) : list url :=
+Fixpoint load (fuel : nat) (j : joiner) (w : world) (todo seen : list url) : list url :=
   match fuel with
   | O => []
   | S f =>
     match todo with
     | [] => []
     | u :: r =>
-      if umem u seen then load f w r seen
-      else u :: load f w (r ++ refs_at w u) (u :: seen)
+      if umem u seen then load f j w r seen
+      else u :: load f j w (r ++ refs_at j w u) (u :: seen)
     end
   end.
 
 (* named, transitively, starting from the caller's URLs *)
-Inductive named (w : world) (roots : list url) : url -> Prop :=
-| named_root u : In u roots -> named w roots u
-| named_ref v u : named w roots v -> In u (refs_at w v) -> named w roots u.
+Inductive named (j : joiner) (w : world) (roots : list url) : url -> Prop :=
+| named_root u : In u roots -> named j w roots u
+| named_ref v u : named j w roots v -> In u (refs_at j w v) -> named j w roots u.
 
 (* ---- what the harness evaluates ---- *)
 
 Record lcase := mkLcase {
   lc_root : url;
-  lc_docs : list (url * list cand);      (* the documents of the scenario, as parsed independently of suds *)
+  lc_docs : list (url * list cand);      (* the documents this load can be served, as parsed independently of suds *)
+  lc_join : list (url * N * url);        (* urljoin on (document, relative reference in it) *)
   lc_fetched : list url;                 (* what suds asked its store / transport for (or opened itself) *)
   lc_ok : bool                           (* the load succeeded *)
 }.
@@ -105,19 +122,30 @@ Record lcase := mkLcase {
 Fixpoint assoc (u : url) (l : list (url * list cand)) : option (list cand) :=
   match l with [] => None | (k, d) :: r => if N.eqb k u then Some d else assoc u r end.
 
+Definition load_fuel : nat := 64.
+
 Definition lc_world (c : lcase) : world := fun u => assoc u (lc_docs c).
 
-Definition load_fuel : nat := 64.
+Fixpoint join_lookup (u : url) (r : N) (l : list (url * N * url)) : url :=
+  match l with
+  | [] => 0%N                              (* no such URL *)
+  | (k, q, v) :: t => if N.eqb k u && N.eqb q r then v else join_lookup u r t
+  end.
+
+Definition lc_joiner (c : lcase) : joiner := fun u r => join_lookup u r (lc_join c).
+
+(* what this load names: a function of ITS documents only *)
+Definition lc_named (c : lcase) : list url :=
+  load load_fuel (lc_joiner c) (lc_world c) [lc_root c] [].
 
 Definition usubset (a b : list url) : bool := forallb (fun x => umem x b) a.
 
 (* the property text: nothing but named documents is fetched *)
 Definition load_spec_ok (c : lcase) : bool :=
-  usubset (lc_fetched c) (load load_fuel (lc_world c) [lc_root c] []).
+  usubset (lc_fetched c) (lc_named c).
 
 (* model = implementation: a successful load fetched exactly the named documents *)
 Definition load_agrees (c : lcase) : bool :=
   if lc_ok c then
-    usubset (lc_fetched c) (load load_fuel (lc_world c) [lc_root c] [])
-    && usubset (load load_fuel (lc_world c) [lc_root c] []) (lc_fetched c)
+    usubset (lc_fetched c) (lc_named c) && usubset (lc_named c) (lc_fetched c)
   else true.
